@@ -108,7 +108,7 @@ static std::string run_population(int ready_mask, int seed, int* divided = nullp
 }
 
 static void explore(Result& R) {
-    const bool th = R.args.thorough(); setup(); const int K = th ? 12 : 3; long cases = 0, ok = 0, fail = 0; double worst = 0; long unit = 0;
+    const bool th = R.args.thorough(); setup(); const int K = th ? 24 : 4; long cases = 0, ok = 0, fail = 0; double worst = 0; long unit = 0;
     for (int s = 0; s < (int)g_shapes.size(); s++) for (int a = 0; a < 16; a++) for (int l = 0; l < 4; l++) for (int k = 0; k < K; k++) {
         if (a >= 10 && !th && (l != 1 || k > 1)) continue;   /* quick: the almost axis-aligned axes with the mid-band edge length, two seeds */
         if (!R.args.mine(unit++)) continue; if (R.out_of_time(0.9)) { R.cap("deadline"); goto pop; }
@@ -128,7 +128,7 @@ static void explore(Result& R) {
         if (cases % 150 == 1) R.sample(case_json(c)); }
 pop:
     long pops = 0, divisions = 0, pops_with_division = 0;
-    for (int mask = 0; mask < 8; mask++) for (int k = 0; k < (th ? 6 : 2); k++) { if (!R.args.mine(unit++)) continue; pops++; int nd = 0; std::string r;
+    for (int mask = 0; mask < 8; mask++) for (int k = 0; k < (th ? 12 : 3); k++) { if (!R.args.mine(unit++)) continue; pops++; int nd = 0; std::string r;
         ForkOut fo = run_forked([&](char* buf, size_t cap) { int d = 0; std::string x = run_population(mask, k, &d); snprintf(buf, cap, "%d|%s", d, x.c_str()); }, 120);
         std::string err; if (fo.status != 0) err = "exception-or-crash-escapes-cell_divider-run: status " + std::to_string(fo.status); else { nd = atoi(fo.data.c_str()); r = fo.data.substr(fo.data.find('|') + 1); if (r != "ok") err = r; }
         divisions += nd; if (nd) pops_with_division++; if (!err.empty()) R.violation(clause_of(err) + "|population", "3 epithelial cells + 1 lumen, ready mask " + std::to_string(mask) + ", seed " + std::to_string(k) + ": " + err, "mode=population\nmask=" + std::to_string(mask) + "\nseed=" + std::to_string(k) + "\n"); }
